@@ -731,6 +731,9 @@ where
             if t != want {
                 return Err(format!("symbol_table {:?} expected {:?}", t, want));
             }
+            // provided `Iterator` methods of the table iterators agree with plain iteration
+            let mut fork = Rng(0x9e37 ^ want.len() as u64);
+            iter_forms(&mut || dec.symbol_table(), &|x| format!("{:?}", tr(x)), &mut fork).map_err(|t| format!("decoder symbol_table(): {}", t))?;
             let gen_enc = dec.to_generic_encoder_model();
             let gen_dec = dec.to_generic_decoder_model();
             if gen_dec.symbol_table().map(tr).collect::<Vec<_>>() != want {
